@@ -374,6 +374,24 @@ def run_marked(case):
             for n, lst in aa.nodes(data='ez_isomer'):
                 for tup in lst or []:
                     have.add(frozenset((tr.get(tup[1]), tr.get(tup[2]))))
+            # a relation may only name substituents that carry a slash mark in the input: never a hydrogen the library completed
+            if k == 0 and case.get('ligands') is not None:
+                allowed = set(case['ligands'])
+                for n, lst in aa.nodes(data='ez_isomer'):
+                    for tup in lst or []:
+                        for lig in (tup[0], tup[3]):
+                            # (an unmarked HEAVY neighbour written right behind a slashed descriptor does get the mark in the
+                            # library's reading of 'C=C/[$x]C'; only hydrogens are judged here: the generator never writes one, so none carries a mark)
+                            if tr.get(lig) not in allowed and aa.nodes[lig].get('element') == 'H':
+                                viol.append(V('c15.relation_for_unmarked_substituent', f'{txt}: the stored relation {tup} names node {lig} ({aa.nodes[lig].get("element")}, '
+                                              f'copy of generator atom {tr.get(lig)}) as substituent, which carries no slash mark in the input'))
+                                break
+                        else:
+                            continue
+                        break
+                    else:
+                        continue
+                    break
             for a1, a2 in case.get('fully_marked', []):
                 if frozenset((a1, a2)) not in have and k == 0:
                     viol.append(V('c15.marked_cut_relation_lost', f'{txt}: the double bond between generator atoms {a1} and {a2} has a slash mark next to both '
